@@ -486,7 +486,16 @@ pub fn generate(prop: &str, seed: u64) -> W1Scn {
     let p = profile_for(prop);
     let mut r = SimRng::new(seed);
     let market = p.force_market || r.chance(p.market_share);
-    let assets = if market { r.range(1, 4) as usize } else { 1 };
+    // (12 assets: two-digit asset indices, more assets than any small fixed-size structure; the property's own range is 1..4)
+    let assets = if market {
+        if r.chance(0.05) {
+            12
+        } else {
+            r.range(1, 4) as usize
+        }
+    } else {
+        1
+    };
     let levels = if market { *r.pick(&MARKET_LEVELS) } else { r.range(1, 24) as usize };
     let narrow = r.chance(p.narrow_share);
     let (alpha_kind, vol_kind) = if narrow { (0u8, 0u8) } else { (r.range(1, 2) as u8, r.range(0, 3) as u8) };
